@@ -86,7 +86,8 @@ def probe_src(ws, names, rng, local_defs=None, kinds=None):
     out = [HEADER]
     marks = []
     kinds = kinds or ["param", "usefixtures", "class_mark", "pytestmark", "indirect", "fixture_param", "kwonly", "method"]
-    if local_defs:
+    local_at_end = bool(local_defs) and rng.random() < 0.4
+    if local_defs and not local_at_end:
         out.append(local_defs)
     pm = []
     for n in names:
@@ -111,6 +112,8 @@ def probe_src(ws, names, rng, local_defs=None, kinds=None):
                 out.append(f'@pytest.mark.parametrize("{n}", [1, 2], indirect=True)\ndef test_i{u}({n}):\n    pass\n\n')
             elif k == "fixture_param":
                 out.append(f"@pytest.fixture\ndef dep{u}({n}):\n    return {n}\n\n")
+    if local_at_end:
+        out.append(local_defs)
     if pm:
         lst = ", ".join(f'pytest.mark.usefixtures("{n}")' for n in pm)
         if len(pm) == 1 and rng.random() < 0.5:
@@ -155,6 +158,11 @@ def gen_workspace(root, rng, depth=None, n_names=None, venv=None, collisions=Tru
                 ml = allow_multiline and rng.random() < 0.2
                 if ml:
                     ws.features.add(("multiline_override",))
+                if rng.random() < 0.5:
+                    # an ordinary request for the name *above* the override in the same file
+                    sp_, _ = fixture_src(ws, f"pre{ws.uid()}_{n}", rng, extra_deps=[n])
+                    body.append(sp_ + "\n")
+                    ws.features.add(("usage_above_override",))
                 s, _ = fixture_src(ws, n, rng, self_param=True, multiline=ml)
                 body.append(s + "\n")
             elif role == "redefine":
